@@ -48,6 +48,21 @@ def generate(ctx, rng):
     else:
         for ctr in Q_COUNTERS + [rng.randrange(4096) for _ in range(60)]:
             yield ("enc-ctr", ctr), {"kind": "enc", "key": rng.randbytes(32), "payload": rng.randbytes(ctr % 40), "counter": ctr}
+    # sessions: many requests / responses of varying length on ONE protocol instance (state carried between packets)
+    for j in range(40 if quick else 1500):
+        style = j % 4
+        if style == 0:
+            lens = list(range(0, 48))
+            rng.shuffle(lens)
+        elif style == 1:
+            lens = [rng.randint(0, 40) for _ in range(60)]
+        elif style == 2:
+            base = rng.randint(0, 200)
+            lens = [base + d for d in rng.sample(range(0, 16), 16)]
+        else:
+            lens = [rng.choice([0, 1, 13, 14, 15, 16, 29, 30, 31, 104, 120]) for _ in range(40)]
+        yield ("session", j), {"kind": "session", "key": rng.randbytes(32), "lengths": lens, "sseed": rng.getrandbits(32),
+                               "via_write": j % 2 == 0}
     # tamper: one length per residue of (len+2) % 16
     for res in [r for r in range(16) for _ in range(1 if quick else 3)]:
         L = ((res - 2) % 16) + 16 * rng.choice([0, 1, 2])
@@ -81,12 +96,84 @@ def run_case(ctx, case):
         _enc(ctx, case)
     elif kind == "dec":
         _dec(ctx, case)
+    elif kind == "session":
+        _session(ctx, case)
     elif kind == "tamper":
         _tamper(ctx, case)
     elif kind == "tamper-wire":
         _tamper_wire(ctx, case)
     else:
         _wire(ctx, case)
+
+
+class _CapTransport:
+    """Minimal transport capturing what the protocol writes."""
+
+    def __init__(self):
+        self.out = []
+
+    def get_extra_info(self, name, default=None):
+        return ("10.9.8.7", 6444) if name == "peername" else default
+
+    def is_closing(self):
+        return False
+
+    def write(self, data):
+        self.out.append(bytes(data))
+
+    def close(self):
+        pass
+
+
+def _session(ctx, case):
+    """Requests and responses of varying length through one protocol instance, in sequence."""
+    import random
+    r = random.Random(case["sseed"])
+    key = bytes(case["key"])
+    proto = _proto(key)
+    tr = _CapTransport()
+    proto.connection_made(tr)
+    expected_ctr = 0
+    for i, L in enumerate(case["lengths"]):
+        payload = r.randbytes(L)
+        k = ("session", case["sseed"], i)
+        try:
+            if case["via_write"]:
+                n0 = len(tr.out)
+                proto.write(payload)
+                wire = b"".join(tr.out[n0:])
+                ctr = expected_ctr
+                expected_ctr = (expected_ctr + 1) & 0xFFF
+            else:
+                ctr = r.randrange(4096)
+                wire = proto._encode_encrypted_request(ctr, payload)
+        except Exception as e:  # noqa: BLE001
+            ctx.count(k, kind="session-enc-raised")
+            ctx.violation("encode-raises", f"request {i} of a session (len {L}) raised {type(e).__name__}: {e}", case)
+            return
+        ctx.count(k, kind="session-enc", sample={"lengths": case["lengths"][:12], "via_write": case["via_write"]} if i == 5 else None)
+        try:
+            d = v3.parse_encrypted(key, wire, v3.T_ENC_REQ)
+        except RefError as e:
+            ctx.violation("session-encode-not-parseable", f"request {i} of a session (len {L}, after lengths {case['lengths'][max(0, i - 3):i]}) "
+                          f"is rejected by the independent parser: {e}", case, {"wire": wire})
+            continue
+        if d["payload"] != payload or d["counter"] != ctr:
+            ctx.violation("session-encode-mismatch", f"request {i} of a session (len {L}) decodes to {len(d['payload'])} bytes / counter {d['counter']}, "
+                          f"expected {L} bytes / counter {ctr}", case, {"wire": wire})
+        # and a response of another length decoded by the same instance
+        L2 = case["lengths"][-1 - i]
+        resp = r.randbytes(L2)
+        pkt = v3.build_encrypted(key, resp, r.randrange(65536), v3.T_ENC_RESP, pad_bytes=r.randbytes(v3.pad_len(L2)))
+        try:
+            with memoryview(pkt) as mv:
+                got = proto._process_packet(mv)
+        except Exception as e:  # noqa: BLE001
+            ctx.violation("session-decode-raises", f"response {i} of a session (len {L2}) raised {type(e).__name__}: {e}", case)
+            continue
+        ctx.count(("session-dec", case["sseed"], i), kind="session-dec")
+        if bytes(got) != resp:
+            ctx.violation("session-decode-mismatch", f"response {i} of a session (len {L2}) decoded to {len(got)} bytes", case)
 
 
 def _enc(ctx, case):
